@@ -205,7 +205,11 @@ func (mv mapValue) PropertyValue(iv Value) Value {
 	if !ir.IsValid() {
 		return nilValue
 	}
-	er := mr.MapIndex(ir)
+	var er reflect.Value
+	if ir.Type().AssignableTo(mr.Type().Key()) {
+		// (a property name cannot be a key of a map whose keys are not strings)
+		er = mr.MapIndex(ir)
+	}
 	switch {
 	case er.IsValid():
 		return ValueOf(er.Interface())
